@@ -48,5 +48,7 @@ Next ==
     \/ \E h \in HS, o \in OS : MDestroyObj(h, o)
 
 Spec == Init /\ [][Next]_vars
-View == state
+View == <<state, low>>
+\* for the wide, MC-only models: the status flags influence nothing else, the properties checked there do not mention them
+ViewNoLow == state
 =============================================================================
